@@ -300,7 +300,7 @@ def main():
     seed = int(os.environ.get('VERIF_SEED', '1'))
     cfg = props.PROPS[pid]
     t0 = time.time()
-    os.makedirs(EVID, exist_ok=True)
+    os.makedirs(EVID, exist_ok=True); os.makedirs(BUILD, exist_ok=True)
     violations = []   # (replay path, suffix)
     notes = {}
     import glob as _g
@@ -371,14 +371,20 @@ def main():
     rng = common.Rng(seed)
     ctx = Ctx(tier, seed)
     cases = []
+    expected = {}     # case index -> published result tokens (standard test vectors kept in the corpus)
     model_ok = os.path.exists(os.path.join(LEAN, '.lake', 'build', 'bin', 'secpmodel'))
     for cp in [pid] + cfg.get('corpus_from', []):
         corpus_dir = os.path.join(ROOT, 'corpus', cp)
         if os.path.isdir(corpus_dir):
             for f in sorted(os.listdir(corpus_dir)):
+                pending = None
                 for l in open(os.path.join(corpus_dir, f)):
                     l = l.strip()
-                    if l and not l.startswith('//') and not l.startswith('#'): cases.append((l, ('corpus', f)))
+                    if l.startswith('# expect') and '->' in l: pending = l.split('->', 1)[1].split()   # published result of the next line
+                    if l and not l.startswith('//') and not l.startswith('#'):
+                        if pending: expected[len(cases)] = pending
+                        pending = None
+                        cases.append((l, ('corpus', f)))
     for g in gens:
         mod = importlib.import_module('gen.' + g)
         cases += mod.generate(rng, tier, ctx)
@@ -391,6 +397,15 @@ def main():
     disagreements = 0
     hist = {}
     per_config = {}
+    # published vectors: the MODEL itself must reproduce the standard's result (the implementation is then held to the model)
+    vec_bad = 0
+    for k, exp in expected.items():
+        got = mout[k].split()
+        if got[:len(exp)] != exp:
+            vec_bad += 1
+            p = write_replay(pid, seed, len(violations), {'kind': 'model-vs-published-vector', 'line': lines[k], 'model': mout[k], 'expected_prefix': exp})
+            violations.append((p, ''))
+    if expected: log('%d published vectors checked against the model, %d mismatches' % (len(expected), vec_bad))
     known = load_known()
     known_lines = {f['line']: f for f in known.get('findings', []) if f.get('property') == pid and 'line' in f}
     known_hit = set()
@@ -427,14 +442,14 @@ def main():
                 hist[fam]['outs'][key] = hist[fam]['outs'].get(key, 0) + 1
             if i == 'skip': continue
             if m != i or m.startswith('ERR') or i.startswith('ERR'):
-                if l in known_lines:
+                if l in known_lines and known_lines[l].get('config') in (None, conf):
                     known_hit.add(l); continue
                 nd += 1
                 if nd <= 5:
                     p = write_replay(pid, seed, len(violations), {'kind': 'model-impl-disagreement', 'config': conf, 'line': l, 'model': m, 'impl': i, 'tag': list(tags[k])})
                     violations.append((p, ''))
         disagreements += nd
-        per_config[conf] = {'cases': len(lines), 'disagreements': nd}
+        per_config[conf] = {'cases': len(lines), 'compared': sum(1 for i in iout if i != 'skip'), 'disagreements': nd}
 
     ct_runs = None
     if cfg.get('ct_valgrind'):
@@ -465,6 +480,7 @@ def main():
     ev = {
         'property_id': pid, 'tier': tier, 'seed': seed, 'level': 'proof',
         'coverage': {
+            'published_vectors': {'checked': len(expected), 'model_mismatches': vec_bad},
             'obligations': max(1, len(thms) + gen_info.get('obligations', 0)),
             'discharged': (len(thms) + gen_info.get('obligations', 0)) if not proof_broken else 0,
             'checker_cmd': 'cd lean && lake build %s && lake env lean <#print axioms for each theorem>%s' % (' '.join(targets), ' && lake env leanchecker <module>' if tier == 'thorough' else ''),
